@@ -231,7 +231,7 @@ def main():
             "rule": "one evaluation = one call of a Python driver function of the real extension module with a Probe callable; for every scenario "
                     "(driver x vector length(s) 1..12 x user function x container, points seeded) the fault-free run is executed twice and then EVERY plan of the "
                     "fault table is applied (raise one of 8 exception kinds - incl. a BaseException 'cancel', KeyboardInterrupt, StopIteration and an exception whose __str__ "
-                    "fails - at invocation 1, transient or permanent; raise at invocation k>=2; wrong-typed return (7 kinds) at invocation 1 or 2; re-entrancy: the callable "
+                    "fails - at invocation 1, transient or permanent; 12 statements that fail inside the callable's body with the interpreter's own exception objects and messages (arity errors, unsupported operands, NameError, IndexError, KeyError, AttributeError, ValueError, AssertionError, RecursionError, a TypeError subclass quoting an arity message); raise at invocation k>=2; wrong-typed return (7 kinds) at invocation 1 or 2; re-entrancy: the callable "
                     "calls the same driver again, same lengths, other point, before using its own argument); after every run in which a fault fired the fault-free run is "
                     "repeated (residue), and every argument a callable was handed is retained and re-examined after the driver returned and after later driver calls. "
                     "distinct_nontrivial = distinct (scenario, plan, invocation log, outcome kind) histories in which a "
